@@ -34,7 +34,8 @@ RULE = ('cases = (cube package with no aperture list, a list of one, two or 3-5 
         'model names stored in the cube in arbitrary (shuffled, un-padded numbered) order; extinction law tabulated in '
         'micron, nm, Angstrom or cm; distance range with theta*d inside or above the aperture table; 1-2 sources; selector N/A/C/D/E/F aimed at k = 1..5 selected fits, optional plot_max, plot_mode A or I, '
         'optional sources=[...] subset; filter wavelengths / apertures / A_V range start in varied units and values; '
-        'results passed as object, as FitInfoFile file or as the file fit(output_convolved=True) writes); every case is plotted in all four display modes; a case is '
+        'in a third of the cases the same package is fitted and plotted with 2-3 different extinction laws in turn in one process, '
+        'every plot checked against its own fit; results passed as object, as FitInfoFile file or as the file fit(output_convolved=True) writes); every case is plotted in all four display modes; a case is '
         'non-trivial when at least one pass-through point (fit x filter x mode) is checked; distinct = '
         'distinct canonical hash of the generated inputs')
 REQUIRED_BRANCHES = ['mode_interp', 'mode_largest', 'mode_largest+smallest', 'mode_all',
@@ -43,7 +44,7 @@ REQUIRED_BRANCHES = ['mode_interp', 'mode_largest', 'mode_largest+smallest', 'mo
                      'repeated_filter_aperture', 'distinct_filter_apertures', 'two_sources', 'ext_unit_micron', 'ext_unit_other',
                      'ext_unit_other_file_av_nonzero', 'cube_names_unsorted', 'aperture_list_of_one', 'two_apertures',
                      'selector_N', 'selector_other', 'plot_max', 'plot_mode_I', 'sources_subset', 'form_fitfile',
-                     'filter_units_other', 'av_range_not_from_zero', 'stored_increasing_wav', 'stored_decreasing_wav']
+                     'filter_units_other', 'av_range_not_from_zero', 'several_laws_same_package', 'later_law_av_nonzero', 'stored_increasing_wav', 'stored_decreasing_wav']
 ASSUMPTIONS = ['IEEE rounding is not modelled: model-vs-implementation tolerance 1e-9 relative on curve values',
                'pass-through against the stored predicted flux is checked to 2e-3 relative (the plot uses KPC = 3.086e21 cm, '
                'the package distance is astropy\'s kpc = 3.0857e21 cm: ratio^2 = 1 - 2.1e-4)',
@@ -108,6 +109,14 @@ def gen_case(rng, directed=None):
     top = nice(rng, 1e3, 1e5, 3)
     beta = rng.uniform(0.4, 1.6)
     chi = [float('%.3g' % (top * (w / 0.05) ** (-beta) * 10 ** rng.uniform(-0.15, 0.15))) for w in tw]
+    # history: the same package fitted and plotted with further, clearly different extinction laws in the same process
+    laws = []
+    for _ in range(directed.get('n_laws', rng.choice([1, 1, 1, 2, 2, 3])) - 1):
+        tw2 = sorted({0.05, 2000.} | {nice(rng, 0.1, 1000., 3) for _ in range(rng.randint(3, 10))})
+        beta2 = rng.choice([b for b in (0.4, 0.7, 1.0, 1.3, 1.6) if abs(b - beta) > 0.25])
+        top2 = nice(rng, 1e3, 1e5, 3)
+        laws.append(dict(tab_w=tw2, ext_unit=rng.choice(['micron', 'nm', 'Angstrom', 'cm']),
+                         tab_chi=[float('%.3g' % (top2 * (w / 0.05) ** (-beta2) * 10 ** rng.uniform(-0.15, 0.15))) for w in tw2]))
     av_lo = float(directed.get('av_lo', rng.choice([0., 0., 0., -5., 2.5])))
     av_range = [av_lo, av_lo + float(rng.choice([5, 10, 30]))]
     where = directed.get('where', rng.choice(['inside', 'above', 'mixed']))
@@ -178,10 +187,11 @@ def gen_case(rng, directed=None):
     ap_unit = directed.get('ap_unit', rng.choice(['arcsec', 'arcsec', 'arcmin', 'deg', 'rad']))
     return dict(wav=wav, aps=aps, val=val, fidx=fidx, theta=theta, tab_w=tw, tab_chi=chi, av=av_range,
                 drange=[dmin, dmax], step=step, sources=sources, k=k, forms=forms, names=names, ext_unit=ext_unit,
-                select=select, plot_max=plot_max, plot_mode=plot_mode, subset=subset, wav_unit=wav_unit, ap_unit=ap_unit)
+                select=select, plot_max=plot_max, plot_mode=plot_mode, subset=subset, wav_unit=wav_unit, ap_unit=ap_unit,
+                laws=laws)
 
 
-PLAIN = dict(select='N', plot_max=None, plot_mode='A', subset=None, wav_unit='micron', ap_unit='arcsec', av_lo=0.)
+PLAIN = dict(n_laws=1, select='N', plot_max=None, plot_mode='A', subset=None, wav_unit='micron', ap_unit='arcsec', av_lo=0.)
 DIRECTED = [
     dict(PLAIN, multi=False, napkind='none', k=1, forms=['object', 'file'], nsrc=1, stored='inc', repeat=False, ext_unit='micron'),
     dict(PLAIN, multi=True, napkind='many', k=1, forms=['object', 'file'], nsrc=1, where='inside', stored='dec', repeat=False, ext_unit='micron'),
@@ -202,6 +212,9 @@ DIRECTED = [
     dict(PLAIN, multi=False, napkind='none', k=4, forms=['object'], nsrc=2, select='D', plot_mode='I', subset='absent', wav_unit='cm', ap_unit='rad'),
     dict(PLAIN, multi=True, napkind='many', k=3, forms=['fitfile'], nsrc=1, select='E', plot_mode='I', where='mixed', wav_unit='m'),
     dict(PLAIN, multi=True, napkind='many', k=5, forms=['object', 'file'], nsrc=1, select='A', plot_max=1),
+    dict(PLAIN, multi=True, napkind='many', k=2, forms=['object', 'file'], nsrc=1, where='inside', n_laws=3),
+    dict(PLAIN, multi=False, napkind='none', k=3, forms=['file', 'fitfile'], nsrc=2, n_laws=2, ext_unit='nm'),
+    dict(PLAIN, multi=True, napkind='two', k=1, forms=['object'], nsrc=1, n_laws=2),
 ]
 
 
@@ -251,7 +264,7 @@ class BuildError(Exception):
     pass
 
 
-def build(case, d):
+def build(case, d, li=0):
     """package, fitter, fits and result files: everything that happens before plot() is called.
     returns {form: (argument for plot, [fit_arrays per source], [source names])}"""
     from astropy import units as u
@@ -259,7 +272,8 @@ def build(case, d):
     from sedfitter.fit_info import FitInfoFile
     names = names_of(case)
     val = np.array(case['val'], dtype=float)
-    pk.write_cube_package(d, names, case['wav'], val, val * 0.1, apertures_au=case['aps'])
+    if li == 0:                                  # later laws of the history reuse the same package
+        pk.write_cube_package(d, names, case['wav'], val, val * 0.1, apertures_au=case['aps'])
     ext = make_ext(case)
     fw, ap = filter_quantities(case)
     out = {}
@@ -277,7 +291,7 @@ def build(case, d):
         if form == 'object':
             out[form] = (infos[0] if len(infos) == 1 else list(infos), [pk.fit_arrays(i) for i in infos])
         elif form == 'file':
-            path = os.path.join(d, 'fits_file.fitinfo')
+            path = os.path.join(d, 'fits_file_%d.fitinfo' % li)
             fo = FitInfoFile(path, 'w')
             for info in infos:
                 fo.write(info)
@@ -285,12 +299,12 @@ def build(case, d):
             out[form] = (path, [pk.fit_arrays(i) for i in infos])
         else:                                    # the file sedfitter.fit() itself writes, predictions kept
             from sedfitter import fit
-            data = os.path.join(d, 'data.txt')
+            data = os.path.join(d, 'data_%d.txt' % li)
             with open(data, 'w') as fh:
                 for s in case['sources']:
                     fh.write('%s 0.0 0.0 %s %s\n' % (s['name'], ' '.join(str(x) for x in s['flags']),
                                                    ' '.join('%r %r' % (a, b) for a, b in zip(s['flux'], s['err']))))
-            path = os.path.join(d, 'fits_fitfile.fitinfo')
+            path = os.path.join(d, 'fits_fitfile_%d.fitinfo' % li)
             with common.quiet():
                 fit(data, fw, ap, d, path, n_data_min=1, extinction_law=ext, av_range=tuple(case['av']),
                     distance_range=np.array(case['drange'], dtype=float) * u.kpc, output_format=('A', 0),
@@ -513,13 +527,47 @@ def model_through(case, a, i, ks):
     return [(t.rat(), t.rat()) for _ in range(n)]
 
 
+def law_cases(case):
+    """the case once per extinction law of its history: the same package fitted and plotted with each law in turn, in
+    one process"""
+    out = [case]
+    for law in case.get('laws') or []:
+        out.append(dict(case, tab_w=law['tab_w'], tab_chi=law['tab_chi'], ext_unit=law['ext_unit']))
+    return out
+
+
 def run_case(case):
     d = tempfile.mkdtemp(prefix='c17_')
     branches = set()
     key = common.canon_hash(case)
+    total = 0
+    sample = None
+    try:
+        subs = law_cases(case)
+        for li, sub in enumerate(subs):
+            res = _run_law(sub, d, li, branches, key)
+            if isinstance(res, CaseResult):
+                if len(subs) > 1:
+                    res.detail = 'extinction law %d of %d fitted and plotted on the same package in this process: %s' % (
+                        li + 1, len(subs), res.detail)
+                return res
+            npts, smp = res
+            total += npts
+            sample = sample or smp
+            if li > 0:
+                branches.add('several_laws_same_package')
+        sample['n_laws'] = len(subs)
+        sample['pass_through_points'] = total
+        return CaseResult(True, branches=branches, key=key, nontrivial=total > 0, sample=sample)
+    finally:
+        shutil.rmtree(d, ignore_errors=True)
+
+
+def _run_law(case, d, li, branches, key):
+    """one fit-and-plot round with the case's (current) extinction law; a CaseResult on failure, else (points, sample)"""
     try:
         try:
-            built = build(case, d)
+            built = build(case, d, li)
         except Exception as e:
             import traceback
             # nothing of C17 has been exercised yet: package, Fitter, fit and result files belong to other properties
@@ -593,6 +641,8 @@ def run_case(case):
                 shown = sorted(drawn_fits(case, n))                 # best first
                 if other_unit and form != 'object' and any(float(a['av'][i]) != 0. for i in shown):
                     branches.add('ext_unit_other_file_av_nonzero')
+                if li > 0 and any(float(a['av'][i]) != 0. for i in shown):
+                    branches.add('later_law_av_nonzero')
                 if multi:
                     for i in shown:
                         for tj in th:
@@ -646,9 +696,9 @@ def run_case(case):
                       subset=case.get('subset'), units=[case.get('wav_unit'), case.get('ap_unit'), case.get('ext_unit')],
                       av_range=case['av'], distance_range=case['drange'], n_sources=len(case['sources']),
                       pass_through_points=npts)
-        return CaseResult(True, branches=branches, key=key, nontrivial=npts > 0, sample=sample)
+        return npts, sample
     finally:
-        shutil.rmtree(d, ignore_errors=True)
+        pass
 
 
 def search(seed, tier, disagreeing):
@@ -663,18 +713,20 @@ def search(seed, tier, disagreeing):
         tried += 1
         d = tempfile.mkdtemp(prefix='c17s_')
         try:
-            try:
-                built = build(case, d)
-            except Exception:
-                continue                       # not a C17 matter
-            try:
-                figs = run_plots(case, built)
-            except Exception as e:
-                found.append((case, 'plot() raised on an in-domain request: %r' % (e,)))
-                continue
-            ok, detail, _ = property_check(case, built, figs)
-            if not ok:
-                found.append((case, 'property fails on the real code: ' + detail))
+            for li, sub in enumerate(law_cases(case)):
+                try:
+                    built = build(sub, d, li)
+                except Exception:
+                    break                      # not a C17 matter
+                try:
+                    figs = run_plots(sub, built)
+                except Exception as e:
+                    found.append((case, 'plot() raised on an in-domain request: %r' % (e,)))
+                    break
+                ok, detail, _ = property_check(sub, built, figs)
+                if not ok:
+                    found.append((case, 'extinction law %d: property fails on the real code: %s' % (li + 1, detail)))
+                    break
         finally:
             shutil.rmtree(d, ignore_errors=True)
         if len(found) >= 3:
